@@ -57,6 +57,18 @@ TARGETS = [
     dict(name="client_calculate_reconnect_values", file="src/client.rs", fn="calculate_reconnect_values", kind="api",
          fields=["username", "session_key"], tape=True,
          calls={"calculate_reconnect_proof": ("calculate_reconnect_proof", "pure")}),
+    dict(name="vanilla_into_client_header_crypto", file="src/vanilla_header/mod.rs", fn="into_client_header_crypto", kind="api",
+         fields=[("seed", "u32")], calls={"calculate_world_server_proof": ("WorldProof.calculate_world_server_proof", "pure"), "HeaderCrypto::new": ("Vanilla.crypto_new", "pure")}),
+    dict(name="vanilla_into_server_header_crypto", file="src/vanilla_header/mod.rs", fn="into_server_header_crypto", kind="api",
+         fields=[("seed", "u32")], calls={"calculate_world_server_proof": ("WorldProof.calculate_world_server_proof", "pure"), "HeaderCrypto::new": ("Vanilla.crypto_new", "pure")}),
+    dict(name="tbc_into_client_header_crypto", file="src/tbc_header/mod.rs", fn="into_client_header_crypto", kind="api",
+         fields=[("seed", "u32")], calls={"calculate_world_server_proof": ("WorldProof.calculate_world_server_proof", "pure"), "HeaderCrypto::new": ("Tbc.crypto_new", "nres")}),
+    dict(name="tbc_into_server_header_crypto", file="src/tbc_header/mod.rs", fn="into_server_header_crypto", kind="api",
+         fields=[("seed", "u32")], calls={"calculate_world_server_proof": ("WorldProof.calculate_world_server_proof", "pure"), "HeaderCrypto::new": ("Tbc.crypto_new", "nres")}),
+    dict(name="wrath_into_client_header_crypto", file="src/wrath_header/mod.rs", fn="into_client_header_crypto", kind="api",
+         fields=[("seed", "u32")], calls={"calculate_world_server_proof": ("WorldProof.calculate_world_server_proof", "pure"), "ClientCrypto::new": ("Wrath.client_crypto_new", "nres")}),
+    dict(name="wrath_into_server_header_crypto", file="src/wrath_header/mod.rs", fn="into_server_header_crypto", kind="api",
+         fields=[("seed", "u32")], calls={"calculate_world_server_proof": ("WorldProof.calculate_world_server_proof", "pure"), "ServerCrypto::new": ("Wrath.server_crypto_new", "nres")}),
     dict(name="skey_as_equal_slice", file="src/key.rs", fn="as_equal_slice", kind="method",
          fields=[("key", ("arr", "u8"))], helpers=[], ret=("arr", "u8"), readonly=True),
 ]
@@ -201,8 +213,12 @@ def api(t, src):
         try: pt, _ = param_type(ty)
         except Untranslatable: pt = ("arr", "u8")
         env[name] = ("v_" + name, pt); args.append(("v_" + name, pt))
+    ftypes = {}
     for f in t["fields"]:
-        env["self." + f] = ("s_" + f, ("arr", "u8"))
+        fname, fty = (f, ("arr", "u8")) if isinstance(f, str) else f
+        ftypes[fname] = fty
+        env["self." + fname] = ("s_" + fname, fty)
+    t = dict(t); t["fields"] = list(ftypes)
     g = Gen(env, dict(CONSTS))
     g.calls = dict(t.get("calls", {})); g.identity_calls = set(IDENTITY); g.structs = dict(STRUCTS); g.draws = dict(DRAWS)
     g.field_draws = dict(t.get("field_draws", {}))
@@ -217,7 +233,7 @@ def api(t, src):
         return "Some (%s)" % ", ".join(parts) if len(parts) > 1 else "Some %s" % parts[0]
     text = g.stmts(blk, final)
     params = "".join("(%s) " % p for p in t.get("extra_params", []))
-    params += "".join("(%s : list N) " % f for f in fields)
+    params += "".join("(%s : %s) " % ("s_" + f, "list N" if isinstance(ftypes[f], tuple) else "N") for f in t["fields"])
     params += "".join("(%s : %s) " % (a, "list N" if isinstance(ty, tuple) else "N") for a, ty in args)
     if t.get("tape"): params += "(v_tape : tape) "
     head = "Definition tr_%s %s:=\n  %s." % (t["name"], params, text)
@@ -226,7 +242,7 @@ def api(t, src):
 
 def main():
     out = ["(* GENERATED by tools/extract_steps.py from the Rust sources under /repo/src. Do not edit. *)",
-           "From Coq Require Import List NArith.", "From WS Require Import lib.Bytes lib.Res lib.Tape lib.StepLoop Consts model.Bigint model.Srp.", "Import ListNotations.", "Local Open Scope N_scope.", ""]
+           "From Coq Require Import List NArith.", "From WS Require Import lib.Bytes lib.Res lib.Tape lib.StepLoop Consts model.Bigint model.Srp.", "From WS Require model.Vanilla model.Tbc model.Wrath model.WorldProof.", "Import ListNotations.", "Local Open Scope N_scope.", ""]
     failed = []
     for t in TARGETS:
         try:
